@@ -237,6 +237,29 @@ func ruleR36(c *Ctx) *RuleResult {
 				}
 			}
 		}
+		// the same descent with the cursor kept in a field (iterators): `it.node = it.node.Children[len(it.node.Children)-1]`
+		// in a loop — the length must be that of the node the round stands on (the same dated load), not of the node the
+		// descent started from (a bound computed once before the loop)
+		for _, g := range gc.GCs {
+			if g.Exit.Op != "goto" || itoa(g.From) != g.Exit.Leaf || g.From == 0 {
+				continue
+			}
+			for _, ef := range g.Effects {
+				if !(isStore(ef) && ef.Args[0].Op == "fa" && len(ef.Args[0].Args) == 1 && ef.Args[0].Args[0].String() == "p:0") {
+					continue
+				}
+				v := ef.Args[1]
+				cur := "(load (fa:" + ef.Args[0].Leaf + " p:0))"
+				if !(v.Op == "load" && len(v.Args) == 1 && v.Args[0].Op == "ia" && len(v.Args[0].Args) == 2 && noEpoch(v.Args[0].Args[0]) == "(load (fa:Children "+cur+"))") {
+					continue
+				}
+				nhop++
+				base, idx := v.Args[0].Args[0], v.Args[0].Args[1]
+				if noEpoch(idx) == "(- (len (load (fa:Children "+cur+"))) #:1)" && idx.Args[0].Args[0].String() != base.String() {
+					bad = append(bad, fmt.Sprintf("the descent hops through child len-1 where the length is that of %s as dated %s, not of the node this round stands on (%s): a bound computed before the loop", cur, idx.Args[0].Args[0].Leaf, base.Leaf))
+				}
+			}
+		}
 		if nhop > 0 {
 			if len(bad) > 0 {
 				r.bad("hop:"+p.FuncKey(fn), clHop, p.FuncPos(fn), strings.Join(dedup(bad), "\n"))
